@@ -127,7 +127,8 @@ func (sg *SegmentGenerator) WriteMpegtsFrame(frame *mpegts.Frame) (err error) {
 		// pure audio again for audio disabled.
 		// so we reap event when the audio incoming when segment overflow.
 		// we use absolutely overflow of segment to make jwplayer/ffplay happy
-		if sg.isSegmentAbsolutelyOverflow() {
+		// 只对纯音频段强制切片；含视频的段必须等到下一个关键帧，否则新段将从非关键帧开始
+		if !sg.current.hasVideo && sg.isSegmentAbsolutelyOverflow() {
 			if err = sg.reapSegment(frame.Pts); err != nil {
 				return
 			}
@@ -162,6 +163,9 @@ func (sg *SegmentGenerator) flushAudioCache() (err error) {
 
 func (sg *SegmentGenerator) flushFrame(frame *mpegts.Frame) (err error) {
 	sg.current.updateDuration(frame.Pts)
+	if frame.IsVideo() {
+		sg.current.hasVideo = true
+	}
 	if err = sg.current.file.writeFrame(frame); err != nil {
 		return
 	}
